@@ -47,7 +47,7 @@ def main(ck):
         n = n_lex // nshards + (1 if i < n_lex % nshards else 0)
         nl = n_long // nshards + (1 if i < n_long % nshards else 0)
         tasks.append(('s%d' % i, {'seed': 'C50:%d:%d' % (ck.seed, i), 'lexicons': n, 'maxlen': 5, 'long_inputs': nl}))
-    timeout = ck.pick(400, 2400)
+    timeout = ck.pick(900, 3000)
     with ThreadPoolExecutor(core.NCPU) as ex:
         outs = list(ex.map(lambda t: (t[0], run_worker(tree, t[1], t[0], timeout)), tasks))
     stats, contracts = {}, {}
